@@ -679,14 +679,23 @@ abbrev Cmp (W : Type) := Vector W 8 → Nat → Nat → Bytes → LastBlock → 
 def reference_b : Cmp UInt64 := fun h t0 t1 buf last => some (Impl.Blake2.reference_compress Impl.Blake2.b h t0 t1 buf last)
 def reference_s : Cmp UInt32 := fun h t0 t1 buf last => some (Impl.Blake2.reference_compress Impl.Blake2.s h t0 t1 buf last)
 
-/-- `EngineB::compress`: `if HAS_AVX2 { return avx2::compress_b(…) }`, then `if HAS_AVX { return avx::compress_b(…) }`,
-    else `reference::compress_b(…)` (the two `cfg`-guarded blocks in this order) -/
-def EngineB.compress (ft : Features) : Cmp UInt64 :=
-  if ft.avx2 then avx2_compress_b else if ft.avx then avx_compress_b else reference_b
+def refused {W : Type} : Cmp W := fun _ _ _ _ _ => none
 
-/-- `EngineS::compress`: `if HAS_AVX { return avx::compress_s(…) }` else `reference::compress_s(…)` -/
+/-- `EngineB::compress`: `if HAS_AVX2 { return avx2::compress_b(…) }`, then `if HAS_AVX { return avx::compress_b(…) }`,
+    else `reference::compress_b(…)` — order and gating of the blocks = the extracted table DISPATCH_BLAKE2B -/
+def EngineB.compress (ft : Features) : Cmp UInt64 :=
+  match selectPath ft DISPATCH_BLAKE2B with
+  | 0 => reference_b
+  | 2 => avx_compress_b
+  | 3 => avx2_compress_b
+  | _ => refused
+
+/-- `EngineS::compress`: `if HAS_AVX { return avx::compress_s(…) }` else `reference::compress_s(…)` (DISPATCH_BLAKE2S) -/
 def EngineS.compress (ft : Features) : Cmp UInt32 :=
-  if ft.avx then avx_compress_s else reference_s
+  match selectPath ft DISPATCH_BLAKE2S with
+  | 0 => reference_s
+  | 2 => avx_compress_s
+  | _ => refused
 
 /-! ## the context paths of Impl.Blake2 with the compression function as a parameter
     (`Impl.Blake2.Ctx.update_mut` etc. call `reference_compress` directly; these are the same statements with `cmp`;
